@@ -98,7 +98,10 @@ def run(ctx):
         (["def", "g1", "(", "x", ")", "x", "/", "0", ";", "g1", "(", "1", ")"], 6, 'rt'),
         (["for", "w1", "in", "5", "do", "1", "end"], 0, 'rt'), (["<*", "q", "=", "1", "*>", "->", "nope", "(", ")"], 5, 'rt'),
         (["require", "NoSuchModule"], 0, 'rt'), (["[", "k", "for", "k", "in", "3", "]"], 0, 'rt'),
-        (["'abc'", "[", "9", "]"], 1, 'rt'), (["7", ")"], 1, 'syn-last'), (["7", "end"], 1, 'syn-last'), (["[", "1", "]", "]"], 3, 'syn-last'),
+        (["'abc'", "[", "9", "]"], 1, 'rt'),
+        (["def", "b1", "(", ")", "do", "1", ";", "break", "end", ";", "b1", "(", ")"], 7, 'rt'),
+        (["def", "c1", "(", ")", "do", "1", ";", "continue", ";", "end", ";", "c1", "(", ")"], 7, 'rt'),
+        (["7", ")"], 1, 'syn-last'), (["7", "end"], 1, 'syn-last'), (["[", "1", "]", "]"], 3, 'syn-last'),
         (["do", "1", "end", "end"], 3, 'syn-last'), (["7", "8"], 1, 'syn-last'), (["x9", "=", "1", ">>"], 3, 'syn-last'), (["f1", "(", "2", ")", "'s'"], 4, 'syn-last'), (["1", "<", "2", "<", "'x'", "+", "NULL", "+", "zzz"], 8, 'rt'),
     ]
     nprog = 2500 if ctx.thorough else 500
